@@ -1,0 +1,1 @@
+//! verification hooks used by the check of property C14
